@@ -126,7 +126,7 @@ fn c25_o1_a_rt_list_int_bool() {
 }
 #[kani::proof]
 #[kani::unwind(24)]
-fn c25_o1_t_rt_list_one_int() {
+fn c25_o1_a_rt_list_one_int() {
     let v = PropertyValue::List(vec![PropertyValue::Int(kani::any())]);
     let ok = roundtrip_ok(&v);
     std::mem::forget(v);
@@ -441,4 +441,4 @@ alloc!(c25_o3_q_alloc_list_n5, 5, 7);
 alloc!(c25_o3_q_alloc_map_n5, 5, 8);
 alloc!(c25_o3_a_alloc_string_n5, 5, 4);
 alloc!(c25_o3_q_alloc_blob_n5, 5, 6);
-alloc!(c25_o3_t_alloc_list_n6, 6, 7);
+alloc!(c25_o3_a_alloc_list_n6, 6, 7);
